@@ -8,7 +8,7 @@ for e in m["edits"]:
     assert src.count(e["find"]) == 1, (e["file"], src.count(e["find"]))
     overlay[p] = src.replace(e["find"], e["replace"])
 tf = tempfile.NamedTemporaryFile("w", suffix=".json", delete=False); json.dump(overlay, tf); tf.close()
-r = subprocess.run(["/verif/bin/knutlint", "-prop", prop, "-repo", repo, "-verif", "/verif", "-no-evidence", "-overlay", tf.name] + sys.argv[3:], stdout=subprocess.PIPE, stderr=subprocess.STDOUT, text=True)
+r = subprocess.run([os.environ.get("KNUTLINT","/verif/bin/knutlint"), "-prop", prop, "-repo", repo, "-verif", "/verif", "-no-evidence", "-overlay", tf.name] + sys.argv[3:], stdout=subprocess.PIPE, stderr=subprocess.STDOUT, text=True)
 os.unlink(tf.name)
 for l in r.stdout.splitlines():
     if "-dump" in sys.argv or any(k in l for k in ("VIOLATED", "UNDECIDED", "FLOOR", "knutlint:", "VIOLATION", "KNOWN")): print(l[:400])
